@@ -115,6 +115,13 @@ extern "C" void h_array_fn() {     // array = ws ( ']' | value *( ws ',' ws valu
 extern "C" void h_object_fn() {    // object = ws ( '}' | member *( ws ',' ws member ) ws '}' ) ; member = '"' string ws ':' ws value
     const C *b = mkbuf(); SS stream;
     unsigned off = vf_u32(); vf_assume(off <= L); unsigned pos = off;
+#if defined(STEER) && STEER == 3   /* steering: the text at the cursor is the strictly valid member list  "":D}  (empty key, one digit) padded with legal whitespace */
+    {
+        vf_assume(off == 0);
+        unsigned q = 0; while (q + 5 < L) { vf_assume(is_ws(b[q])); ++q; }
+        vf_assume(L >= 5 && b[q] == C('"') && b[q + 1] == C('"') && b[q + 2] == C(':') && b[q + 3] >= C('1') && b[q + 3] <= C('9') && b[q + 4] == C('}'));
+    }
+#endif
     V v = PR::parseObject(stream, b, off, SizeT(L));
 #if defined(STEER) && STEER == 2
     vf_assume(v.IsUndefined() && off < L && (b[off] == C('}') || b[off] == C(']') || b[off] == C(',')));
